@@ -1,6 +1,6 @@
-// Regenerates lean/KG/Gen/C18.lean: the heartbeat time-out and the two clean-up periods of
-// pkg/ratelimiter/limiter/ratelimter.go (milliseconds), the instance label key, and two shape facts of the
-// clean-up passes that cannot be seen by running them once: which timer runs which pass.
+// Regenerates lean/KG/Gen/C18.lean: the heartbeat time-out (ms), the instance label key, and the two facts about the tick
+// schedule that cannot be seen by running a pass once: with which period a timer started by Run reaches the time-out
+// pass and the unknown pass. The passes and timers are found by role (what they do), not by name or statement shape.
 package main
 
 import (
@@ -8,6 +8,8 @@ import (
 	"go/ast"
 	"go/constant"
 	"go/token"
+	"os"
+	"path/filepath"
 	"strings"
 
 	"extract/lib"
@@ -83,83 +85,158 @@ func ms(g *lib.Gen, name string) string {
 	return fmt.Sprint(n / 1000000)
 }
 
-// timerOf finds `go wait.Until(r.<fn>, <period>, stopCh)` in Run and returns the period identifier.
-func timerOf(run *ast.FuncDecl, fn string) string {
-	res := ""
-	ast.Inspect(run, func(n ast.Node) bool {
-		g, ok := n.(*ast.GoStmt)
+// ---- the tick schedule, by ROLE --------------------------------------------------------------------------------------
+// What the theorems need is not how Run or sync() are spelt but two semantic facts: (1) a periodic timer started by
+// Run reaches - directly or through helpers of the package - the code that compares a heartbeat's age with
+// ClientHeartBeatTimeout (the time-out pass), and with which period; (2) a periodic timer reaches the code that walks the
+// stored conditions against the heartbeat table and deletes upstreams (the unknown pass), and with which period.
+
+type pkgFuncs map[string]*ast.FuncDecl // function / method name -> declaration (whole package directory)
+
+func loadPkg(g *lib.Gen, dir string) (pkgFuncs, []*ast.File) {
+	res := pkgFuncs{}
+	var files []*ast.File
+	entries, err := os.ReadDir(filepath.Join(g.Repo, dir))
+	if err != nil {
+		lib.Fatalf("%v", err)
+	}
+	for _, e := range entries {
+		if e.IsDir() || !strings.HasSuffix(e.Name(), ".go") || strings.HasSuffix(e.Name(), "_test.go") {
+			continue
+		}
+		f := g.ParseFile(filepath.Join(dir, e.Name()))
+		files = append(files, f)
+		for _, d := range f.Decls {
+			if fd, ok := d.(*ast.FuncDecl); ok && fd.Body != nil {
+				res[fd.Name.Name] = fd
+			}
+		}
+	}
+	return res, files
+}
+
+// calleeName: r.foo(...) / foo(...) / r.foo used as a value -> "foo" when foo is a function of the package.
+func calleeName(e ast.Expr, fns pkgFuncs) string {
+	switch x := e.(type) {
+	case *ast.SelectorExpr:
+		if _, ok := fns[x.Sel.Name]; ok {
+			if _, isIdent := x.X.(*ast.Ident); isIdent {
+				return x.Sel.Name
+			}
+		}
+	case *ast.Ident:
+		if _, ok := fns[x.Name]; ok {
+			return x.Name
+		}
+	}
+	return ""
+}
+
+// reach: does the code under n (following calls and function values of the package, to the given depth) satisfy pred?
+func reach(n ast.Node, fns pkgFuncs, depth int, seen map[string]bool, pred func(ast.Node) bool) bool {
+	found := false
+	ast.Inspect(n, func(x ast.Node) bool {
+		if found || x == nil {
+			return false
+		}
+		if pred(x) {
+			found = true
+			return false
+		}
+		if e, ok := x.(ast.Expr); ok && depth > 0 {
+			if name := calleeName(e, fns); name != "" && !seen[name] {
+				seen[name] = true
+				if reach(fns[name].Body, fns, depth-1, seen, pred) {
+					found = true
+					return false
+				}
+			}
+		}
+		return true
+	})
+	return found
+}
+
+func usesIdent(name string) func(ast.Node) bool {
+	return func(n ast.Node) bool { id, ok := n.(*ast.Ident); return ok && id.Name == name }
+}
+
+func callsMethod(name string) func(ast.Node) bool {
+	return func(n ast.Node) bool {
+		c, ok := n.(*ast.CallExpr)
 		if !ok {
+			return false
+		}
+		s, ok := c.Fun.(*ast.SelectorExpr)
+		return ok && s.Sel.Name == name
+	}
+}
+
+// timers: every `go <pkg>.<Until-like>(callback, period, …)` (or without go) in fn: callback expression and period in ms.
+type timer struct {
+	cb     ast.Expr
+	period int64
+}
+
+func timers(f *ast.File, fn *ast.FuncDecl) []timer {
+	var res []timer
+	ast.Inspect(fn, func(n ast.Node) bool {
+		c, ok := n.(*ast.CallExpr)
+		if !ok || len(c.Args) < 2 {
 			return true
 		}
-		sel, ok := g.Call.Fun.(*ast.SelectorExpr)
-		if !ok || sel.Sel.Name != "Until" || len(g.Call.Args) != 3 {
+		sel, ok := c.Fun.(*ast.SelectorExpr)
+		if !ok || !strings.Contains(sel.Sel.Name, "Until") {
 			return true
 		}
-		f, ok := g.Call.Args[0].(*ast.SelectorExpr)
-		p, ok2 := g.Call.Args[1].(*ast.Ident)
-		if ok && ok2 && f.Sel.Name == fn {
-			res = p.Name
-		}
+		res = append(res, timer{cb: c.Args[0], period: evalDur(f, c.Args[1], 0)})
 		return true
 	})
 	return res
 }
 
-// firstCall reports whether the first statement of fn's body is the call r.<callee>().
-func callsInOrder(fd *ast.FuncDecl) []string {
-	var out []string
-	for _, st := range fd.Body.List {
-		if es, ok := st.(*ast.ExprStmt); ok {
-			if c, ok := es.X.(*ast.CallExpr); ok {
-				if s, ok := c.Fun.(*ast.SelectorExpr); ok {
-					out = append(out, s.Sel.Name)
-				}
-			}
-		}
-	}
-	return out
-}
-
 func main() {
 	lib.Main(func(g *lib.Gen) {
 		f := g.ParseFile(file)
+		fns, _ := loadPkg(g, filepath.Dir(file))
 		run := lib.FuncDecl(f, "rateLimiter", "Run")
-		sync := lib.FuncDecl(f, "rateLimiter", "sync")
-		if run == nil || sync == nil || lib.FuncDecl(f, "rateLimiter", "cleanupTimeoutClient") == nil ||
-			lib.FuncDecl(f, "rateLimiter", "cleanupUnknownCondition") == nil {
-			lib.Fatalf("%s: Run / sync / cleanupTimeoutClient / cleanupUnknownCondition not found", file)
+		if run == nil {
+			lib.Fatalf("%s: rateLimiter.Run not found", file)
 		}
-		syncTimer := timerOf(run, "sync")
-		unknownTimer := timerOf(run, "cleanupUnknownCondition")
-		if syncTimer == "" || unknownTimer == "" {
-			lib.Fatalf("%s: Run no longer starts wait.Until(r.sync, …) and wait.Until(r.cleanupUnknownCondition, …)", file)
+		isTimeoutPass := usesIdent("ClientHeartBeatTimeout")
+		// the unknown pass: reads the heartbeat table AND deletes upstreams that are no longer listed
+		var timeoutPeriod, unknownPeriod int64 = -1, -1
+		for _, t := range timers(f, run) {
+			if reach(t.cb, fns, 4, map[string]bool{}, isTimeoutPass) {
+				if timeoutPeriod < 0 || t.period < timeoutPeriod {
+					timeoutPeriod = t.period
+				}
+			}
+			if !reach(t.cb, fns, 4, map[string]bool{}, isTimeoutPass) &&
+				reach(t.cb, fns, 2, map[string]bool{}, callsMethod("DeleteUpstream")) && reach(t.cb, fns, 2, map[string]bool{}, callsMethod("AllClients")) {
+				if unknownPeriod < 0 || t.period < unknownPeriod {
+					unknownPeriod = t.period
+				}
+			}
 		}
-		calls := callsInOrder(sync)
+		if timeoutPeriod < 0 {
+			lib.Fatalf("%s: no periodic timer started by Run reaches the code that tests a heartbeat against ClientHeartBeatTimeout", file)
+		}
+		if unknownPeriod < 0 {
+			lib.Fatalf("%s: no periodic timer started by Run reaches the pass that checks stored conditions against the heartbeat table", file)
+		}
+		if timeoutPeriod%1000000 != 0 || unknownPeriod%1000000 != 0 {
+			lib.Fatalf("%s: timer periods are not whole milliseconds", file)
+		}
 		label := constant.StringVal(g.Const(file, "RateLimitConditionInstanceLabel"))
-		// the label must be the literal the report path writes
-		lit := false
-		ast.Inspect(lib.FuncDecl(f, "rateLimiter", "UpdateRateLimitConditionStatus"), func(n ast.Node) bool {
-			if b, ok := n.(*ast.BasicLit); ok && b.Kind == token.STRING && strings.Trim(b.Value, "\"") == label {
-				lit = true
-			}
-			if id, ok := n.(*ast.Ident); ok && id.Name == "RateLimitConditionInstanceLabel" {
-				lit = true
-			}
-			return true
-		})
 		var b strings.Builder
 		b.WriteString("namespace KG.Gen.C18\n")
 		b.WriteString("/-! constants of " + file + " (durations in milliseconds) -/\n")
 		fmt.Fprintf(&b, "def clientHeartBeatTimeoutMs : Nat := %s\n", ms(g, "ClientHeartBeatTimeout"))
-		fmt.Fprintf(&b, "def syncPeriodMs : Nat := %s\n", ms(g, "syncPeriod"))
-		fmt.Fprintf(&b, "def cleanupPeriodMs : Nat := %s\n", ms(g, "cleanupPeriod"))
-		fmt.Fprintf(&b, "/-- period constant of the timer that runs `sync` (time-out pass) / `cleanupUnknownCondition` -/\n")
-		fmt.Fprintf(&b, "def timeoutPassPeriodMs : Nat := %s\n", ms(g, syncTimer))
-		fmt.Fprintf(&b, "def unknownPassPeriodMs : Nat := %s\n", ms(g, unknownTimer))
-		fmt.Fprintf(&b, "/-- calls made by `sync()` in order -/\n")
-		fmt.Fprintf(&b, "def syncCalls : List String := %s\n", lib.LeanStrList(calls))
+		fmt.Fprintf(&b, "/-- period of the (fastest) timer started by `Run` whose callback reaches the time-out pass / the unknown pass -/\n")
+		fmt.Fprintf(&b, "def timeoutPassPeriodMs : Nat := %d\n", timeoutPeriod/1000000)
+		fmt.Fprintf(&b, "def unknownPassPeriodMs : Nat := %d\n", unknownPeriod/1000000)
 		fmt.Fprintf(&b, "def instanceLabel : String := %q\n", label)
-		fmt.Fprintf(&b, "def reportWritesInstanceLabel : Bool := %v\n", lit)
 		b.WriteString("end KG.Gen.C18\n")
 		g.Emit("C18.lean", b.String())
 	})
